@@ -1,11 +1,11 @@
 CONSTANTS WholeRules <- Whole
           PatternRules <- Pattern
-          Docs <- DocsC
+          Docs <- DocsGlue
           Cap = 2
           KeyHasTokens = TRUE
-          MaxOps = 4
-          Peeking <- NoRules
-INIT InitH
-NEXT NextH
-INVARIANTS EmitCase
+          MaxOps = 3
+          Peeking <- PeekP1
+INIT LGInit
+NEXT LGNext
+INVARIANTS CacheUnobservable
 CHECK_DEADLOCK FALSE
